@@ -14,7 +14,8 @@ argument domains and to depth 3 over trimmed domains (sampled with EmitMod at th
 everything at the thorough tier), plus a >= 17-row configuration for the stability clause, plus
 `-simulate` runs with trimmed domains; every emitted history is replayed step by step into real
 objects (4 descriptor flavours: list|ndarray x int|str, rotating over 4 memory layouts of the source
-measurements: C, Fortran, transposed view, strided slice) and after every step ALL live objects and
+measurements: C, Fortran, transposed view, strided slice; 5 measurement dtypes float64 / int64 /
+float32 / int32 / uint8|int16; 6 encodings of the time coordinate incl. large floats and strings) and after every step ALL live objects and
 everything the call returned (all parts of a split, group means, the DataFrame) are compared with
 the specification.  A mirror run lets TLC print Obs(ob) next to the ghost labels so that the
 Python decoding of labels (harness/datastore.py:expected) is itself checked against the spec.
@@ -106,8 +107,9 @@ def replay_all(ctx, r, c, seen_ops):
             seen_ops |= ops
             for i, flavour, res, src, events in bad:
                 k, key, detail = res
+                dtype, timeflav = S.pick_flavours(i // 4, {ev['op'] for ev in events})
                 ctx.violation(f'{PID}/{key}', f'step {k + 1} of a history leaves the specification: {key}',
-                              {'src': src, 'const': c, 'flavour': flavour, 'variant': i // 4, 'layout': S.LAYOUTS[(i // 4) % 4], 'step': k,
+                              {'src': src, 'const': c, 'flavour': flavour, 'variant': i // 4, 'layout': S.LAYOUTS[(i // 4) % 4], 'dtype': dtype, 'timeflav': timeflav, 'step': k,
                                'events': events, 'detail': detail})
     return n
 
@@ -137,7 +139,10 @@ def _trace_one(args):
     rng = np.random.default_rng(seed)
     flavour = S.FLAVOURS[seed % 4]
     layout = S.LAYOUTS[(seed // 4) % 4]
-    return seed, src, flavour, S.random_trace(rng, src, c, flavour, length, ops, scratch=scratch, layout=layout)
+    dtype = S.DTYPES[(seed // 16) % len(S.DTYPES)]
+    timeflav = S.TIMEFLAVS[(seed // 3) % len(S.TIMEFLAVS)]
+    return seed, src, flavour + (layout, dtype, timeflav), S.random_trace(
+        rng, src, c, flavour, length, ops, scratch=scratch, layout=layout, dtype=dtype, timeflav=timeflav)
 
 
 def record_and_validate(ctx, sources, c, ntraces, length, corrupt=False):
@@ -272,7 +277,7 @@ def run(ctx):
                 'with at least one operation other than copy/saveload/dict/drop; plus random histories recorded '
                 'from real objects and validated by Trace_DataStore')
     ctx.assumptions = ['projection harness/datastore.py:project is faithful',
-                       'token cells 100*obs+10*chan+mean(2^(t-1)) make every cell self-describing (bin weight '
+                       'token cells 101*obs+10*chan+mean(2^(t-1)) make every cell self-describing (bin weight '
                        'denominators <= 6, enforced by the enabling condition of bin_time)',
                        'admissibility = Enabled() of DataStore.tla (documented contracts; growth caps)',
                        'dataset-level descriptors written by split_* / from_df are modelled as the code sets them']
